@@ -5,6 +5,8 @@ package main
 // the confirmed bounded waits whose premise is re-checked.
 
 import (
+	"os"
+	"go/types"
 	"fmt"
 	"strings"
 
@@ -190,3 +192,312 @@ func (p *Prog) chanNameThroughParams(fn *ssa.Function, v ssa.Value) string {
 	// reached this function
 	return chanFieldName(v)
 }
+
+// closeOnce (typestate open -> closed, never closed twice: a second close
+// panics). Every close(ch) site is justified by one of
+//  (a) it runs inside the function handed to sync.Once.Do;
+//  (b) a receive test on the same channel dominates it in the same function
+//      and its "already closed" outcome cannot reach the close (re-entry
+//      guard of a one-shot API such as Serve / Close);
+//  (c) every channel it may close was created by the same known top-level
+//      function (the closer is that function, its closures, or a goroutine
+//      it starts): one close per creation;
+//  (d) it is in the body of a per-object goroutine (`go x.run()` started by
+//      x.start()), and start() is only called on an object created in the
+//      calling function or inside a region covered by a guard of kind (b).
+func (c *Check) closeOnce(rule string) {
+	p := c.P
+	cf := p.chanFlow()
+	n := 0
+	onceFns := map[*ssa.Function]bool{}
+	for _, fn := range p.AllFuncs {
+		ownInstrs(fn, func(in ssa.Instruction) {
+			ci, ok := in.(ssa.CallInstruction)
+			if !ok || p.calleeDesc(ci) != "sync.Once.Do" {
+				return
+			}
+			args := ci.Common().Args
+			if len(args) < 2 {
+				return
+			}
+			switch x := args[1].(type) {
+			case *ssa.MakeClosure:
+				onceFns[x.Fn.(*ssa.Function)] = true
+			case *ssa.Function:
+				onceFns[x] = true
+			}
+			// bound method value p.signalClose
+			if mc, ok := args[1].(*ssa.MakeClosure); ok {
+				if f, ok := mc.Fn.(*ssa.Function); ok && f.Synthetic != "" {
+					for _, b := range f.Blocks {
+						for _, i2 := range b.Instrs {
+							if c2, ok := i2.(ssa.CallInstruction); ok {
+								if t := p.staticLocalCallee(c2); t != nil {
+									onceFns[t] = true
+								}
+							}
+						}
+					}
+				}
+			}
+		})
+	}
+	// guard (b): in every abstract state reaching `to`, some select that tests
+	// the same channel has been executed and did not take that channel's case
+	// (decided on the select's index value, so the test may live in a helper
+	// that reports it as a boolean)
+	anCache := map[*ssa.Function]*Analysis{}
+	guarded := func(fn *ssa.Function, to ssa.Instruction, v ssa.Value) bool {
+		root := fn
+		a := anCache[root]
+		if a == nil {
+			a = NewAnalysis(p, root)
+			a.Run()
+			anCache[root] = a
+		}
+		type selCase struct {
+			sel *ssa.Select
+			k   int
+		}
+		var cands []selCase
+		allInstrs(root, func(in ssa.Instruction) {
+			if sel, isSel := in.(*ssa.Select); isSel {
+				for k, st := range sel.States {
+					if st.Send == nil && sameCreation(cf, st.Chan, v) {
+						cands = append(cands, selCase{sel, k})
+					}
+				}
+			}
+		})
+		sts := a.At[to]
+		if len(cands) == 0 || len(sts) == 0 {
+			return false
+		}
+		for _, st := range sts {
+			okSt := false
+			for _, sc := range cands {
+				l, bound := st.env[sc.sel]
+				if !bound {
+					continue // select not executed on this path
+				}
+				idx := mk("ex", types.Typ[types.Int], "", 0, l, mkConst(0, intT))
+				if r := st.rangeOf(idx); !r.Empty() && !r.Contains(int64(sc.k)) {
+					okSt = true
+				}
+			}
+			if !okSt {
+				if os.Getenv("CBGP_DEBUG") != "" {
+					fmt.Printf("DEBUG guarded(%s @%s): state tags=%v not guarded; cands=%d\n", p.Name(fn), p.InstrPos(to), st.tags, len(cands))
+					for _, sc := range cands {
+						l, bound := st.env[sc.sel]
+						fmt.Printf("    sel %s case %d bound=%v", p.InstrPos(sc.sel), sc.k, bound)
+						if bound {
+							idx := mk("ex", types.Typ[types.Int], "", 0, l, mkConst(0, intT))
+							fmt.Printf(" rng=%s", st.rangeOf(idx))
+						}
+						fmt.Println()
+					}
+				}
+				return false
+			}
+		}
+		return true
+	}
+	for _, fn := range p.AllFuncs {
+		ownInstrs(fn, func(in ssa.Instruction) {
+			ci, ok := in.(ssa.CallInstruction)
+			if !ok || p.calleeDesc(ci) != "builtin:close" || len(ci.Common().Args) != 1 {
+				return
+			}
+			n++
+			v := ci.Common().Args[0]
+			key := chanFieldName(v)
+			name := p.Name(fn)
+			// (a)
+			for f := fn; f != nil; f = f.Parent() {
+				if onceFns[f] {
+					c.ok(rule, name, "close("+key+")", p.InstrPos(in), "runs under sync.Once")
+					return
+				}
+			}
+			// the instruction that registers the close in the enclosing
+			// function: the close itself, or the defer of the closure it is in
+			reg, regFn := in, fn
+			for _, g := range p.AllFuncs {
+				ownInstrs(g, func(x ssa.Instruction) {
+					if d, isD := x.(*ssa.Defer); isD && p.staticLocalCallee(d) == fn {
+						reg, regFn = x, g
+					}
+				})
+			}
+			// (b)
+			if guarded(regFn, reg, v) {
+				c.ok(rule, name, "close("+key+")", p.InstrPos(in), "re-entry guard: an earlier test of the same channel returns when it is already closed")
+				return
+			}
+			// (c)
+			sites := cf.sites(stripCT(v))
+			sameOwner := len(sites) > 0
+			owner := p.ownerTop(fn)
+			topFn := fn
+			for topFn.Parent() != nil {
+				topFn = topFn.Parent()
+			}
+			for _, m := range sites {
+				creator := p.ownerTop(m.Parent())
+				if creator == owner {
+					continue
+				}
+				// a goroutine the creator starts (one per creation)
+				spawned := false
+				for _, s := range p.spawns() {
+					if s.Target == topFn && p.ownerTop(s.In) == creator {
+						spawned = true
+					}
+				}
+				if !spawned {
+					sameOwner = false
+				}
+			}
+			if sameOwner {
+				c.ok(rule, name, "close("+key+")", p.InstrPos(in), "the channel is created by the same function ("+p.Name(owner)+"): one close per creation")
+				return
+			}
+			// (d)
+			top := fn
+			for i := 0; i < 3; i++ {
+				for top.Parent() != nil {
+					top = top.Parent()
+				}
+				// a deferred method belongs to the function that defers it
+				moved := false
+				for _, g := range p.AllFuncs {
+					ownInstrs(g, func(x ssa.Instruction) {
+						if d, isD := x.(*ssa.Defer); isD && p.staticLocalCallee(d) == top && g != top {
+							top, moved = g, true
+						}
+					})
+				}
+				if !moved {
+					break
+				}
+			}
+			for top.Parent() != nil {
+				top = top.Parent()
+			}
+			okD, why := false, "not under sync.Once, no re-entry guard, not created by its closer, not a per-object goroutine"
+			for _, s := range p.spawns() {
+				if s.Target != top || !strings.HasSuffix(p.Name(s.In), ".start") {
+					continue
+				}
+				// every call of x.start(): x created in the caller, or the call is
+				// dominated by a guard of kind (b) on some channel of the caller
+				okD = true
+				for _, g := range p.AllFuncs {
+					ownInstrs(g, func(x ssa.Instruction) {
+						c2, isC := x.(ssa.CallInstruction)
+						if !isC || p.staticLocalCallee(c2) != s.In {
+							return
+						}
+						recv := c2.Common().Args[0]
+						fresh := false
+						if cl, isCall := recv.(*ssa.Call); isCall {
+							if t := p.staticLocalCallee(cl); t != nil && strings.HasPrefix(p.Name(t), "new") {
+								fresh = true
+							}
+						}
+						if ld, isL := recv.(*ssa.UnOp); isL {
+							// p.fsms[i] just stored from newFSM in the same block
+							for _, y := range x.Block().Instrs {
+								if st, isS := y.(*ssa.Store); isS && sameAddr(st.Addr, ld.X) {
+									if cl, isCall := st.Val.(*ssa.Call); isCall {
+										if t := p.staticLocalCallee(cl); t != nil && strings.HasPrefix(p.Name(t), "new") {
+											fresh = true
+										}
+									}
+								}
+							}
+						}
+						if fresh {
+							return
+						}
+						// guarded region: every field channel of kind "done"
+						// closed by a defer of g is tested at g's entry
+						covered := false
+						// the function containing the call, or a caller that
+						// reaches it through helpers
+						ancestors := []*ssa.Function{g}
+						for i := 0; i < len(ancestors) && i < 6; i++ {
+							for _, site := range p.helperSites(ancestors[i]) {
+								ancestors = append(ancestors, site.Parent())
+							}
+						}
+						for _, G := range ancestors {
+							ownInstrs(G, func(y ssa.Instruction) {
+								d, isD := y.(*ssa.Defer)
+								if !isD {
+									return
+								}
+								if t := p.staticLocalCallee(d); t != nil {
+									for _, cl := range p.callsDeep(t, descIs("builtin:close")) {
+										if guarded(G, y, cl.Common().Args[0]) && guarded(G, x, cl.Common().Args[0]) {
+											covered = true
+										}
+									}
+								}
+							})
+						}
+						if !covered {
+							okD = false
+							why = "start() of " + p.Name(s.In) + " at " + p.InstrPos(x) + " may run twice for one object"
+						}
+					})
+				}
+			}
+			c.require(okD, rule, name, "close("+key+")", p.InstrPos(in), "a channel is closed at most once: "+why)
+		})
+	}
+	c.floor(rule, n, 10, "close() sites")
+}
+
+func stripCT(v ssa.Value) ssa.Value {
+	for {
+		ct, ok := v.(*ssa.ChangeType)
+		if !ok {
+			return v
+		}
+		v = ct.X
+	}
+}
+
+// sameCreation: a and b may denote the same channels and nothing else.
+func sameCreation(cf *chanFlow, a, b ssa.Value) bool {
+	sa, sb := cf.sites(stripCT(a)), cf.sites(stripCT(b))
+	if len(sa) == 0 || len(sa) != len(sb) {
+		return false
+	}
+	for i := range sa {
+		if sa[i] != sb[i] {
+			return false
+		}
+	}
+	return true
+}
+
+func sameAddr(a, b ssa.Value) bool {
+	if a == b {
+		return true
+	}
+	ia, ok1 := a.(*ssa.IndexAddr)
+	ib, ok2 := b.(*ssa.IndexAddr)
+	if ok1 && ok2 {
+		return ia.Index == ib.Index && sameAddr(ia.X, ib.X)
+	}
+	fa, ok3 := a.(*ssa.FieldAddr)
+	fb, ok4 := b.(*ssa.FieldAddr)
+	if ok3 && ok4 {
+		return fa.Field == fb.Field && fa.X == fb.X
+	}
+	return false
+}
+
